@@ -321,6 +321,15 @@ class H2Protocol:
                     pass
             elif isinstance(event, h2.events.StreamReset):
                 await self._close_stream(event.stream_id)
+                buffer = self.stream_buffers.pop(event.stream_id, None)
+                if buffer is not None:
+                    # Nothing more can be sent on the stream, release
+                    # any send waiting for flow control credit.
+                    await buffer.close()
+                    try:
+                        self.priority.remove_stream(event.stream_id)
+                    except priority.MissingStreamError:
+                        pass
                 await self._window_updated(event.stream_id)
             elif isinstance(event, h2.events.WindowUpdated):
                 await self._window_updated(event.stream_id)
